@@ -3,6 +3,7 @@
    with the model's dispatch `Rawdata.load t alt` (whose branches are tied to the LoadStore impls by Proofs/SrcLoadStore.v
    and Proofs/SrcLoadStoreBytes.v) the generated next / nth / size_hint equal Rawdata.iter_next / iter_nth / size_hint. *)
 From EG Require Import Base.Prelude Base.Casts Model.Rawdata Gen.SrcRawIter.
+From EG Require Export Proofs.SrcUsize.
 Set Default Timeout 60.
 
 Lemma src_rawiter_new_eq data : src_RawDataIterator_new data = iter_new data.
@@ -15,25 +16,25 @@ Proof.
   destruct s; reflexivity.
 Qed.
 
-Lemma src_rawiter_nth_eq t alt s n : 0 <= it_index s -> 0 <= n ->
-  src_RawDataIterator_nth (load (U := usize64) t alt) s n = (snd (iter_nth (U := usize64) t alt s n), fst (iter_nth (U := usize64) t alt s n)).
+Lemma src_rawiter_nth_eq {U : Usize} t alt s n : 0 <= it_index s -> 0 <= n ->
+  src_RawDataIterator_nth (load t alt) s n = (snd (iter_nth t alt s n), fst (iter_nth t alt s n)).
 Proof.
   intros Hi Hn. unfold src_RawDataIterator_nth, iter_nth. rewrite src_rawiter_next_eq.
-  assert (E : Casts.sat_add_usize (it_index s) n = sat_add_usize (U := usize64) (it_index s) n).
-  { unfold Casts.sat_add_usize, Casts.clamp, sat_add_usize, Casts.min_usize, Casts.max_usize. cbn [usize_max usize64]. lia. }
+  assert (E : Casts.sat_add_usize (it_index s) n = sat_add_usize (it_index s) n).
+  { unfold Casts.sat_add_usize, Casts.clamp, sat_add_usize, Casts.min_usize. cbn [Casts.usize_max_w usize_w_of]. pose proof usize_at_least_16. lia. }
   rewrite E. destruct (iter_next t alt _); reflexivity.
 Qed.
 
 Lemma src_rawiter_size_hint_eq {U : Usize} t s :
-  0 <= it_index s -> Z.of_nat (length (it_data s)) * 8 <= Casts.max_usize ->
+  0 <= it_index s -> Z.of_nat (length (it_data s)) * 8 <= usize_max ->
   src_RawDataIterator_size_hint (bits t) s = size_hint t s.
 Proof.
   intros Hi Hl. unfold src_RawDataIterator_size_hint, size_hint, pixels_total, buf_len.
   set (p := if 8 <=? bits t then _ else _).
-  assert (Hp : 0 <= p <= Casts.max_usize).
-  { unfold p. destruct t; cbn; unfold Casts.max_usize in *; try lia;
+  assert (Hp : 0 <= p <= usize_max).
+  { unfold p. destruct t; cbn; try lia;
       (split; [apply Z.div_pos; lia | apply Z.le_trans with (Z.of_nat (length (it_data s))); [apply Z.div_le_upper_bound; lia | lia]]). }
   assert (E : Casts.sat_sub_usize p (it_index s) = sat_sub_usize p (it_index s)).
-  { unfold Casts.sat_sub_usize, Casts.clamp, sat_sub_usize, Casts.min_usize, Casts.max_usize in *. lia. }
+  { unfold Casts.sat_sub_usize, Casts.clamp, sat_sub_usize, Casts.min_usize in *. cbn [Casts.usize_max_w usize_w_of]. lia. }
   cbv zeta. rewrite E. reflexivity.
 Qed.
